@@ -609,21 +609,14 @@ func (ss *wSess) sendRaw(raw []byte) {
 	}
 	wTouch(ss.s, time.Now())
 	if ss.grpc {
-		var msg ClientComMessage
-		if json.Unmarshal(raw, &msg) == nil {
-			if pkt := pbCliSerialize(&msg); pkt != nil {
-				if pkt.Extra != nil && msg.Extra != nil {
-					// a gRPC client fills extra.auth_level itself; pbCliSerialize (the server's own use: plugins,
-					// cluster) takes it from the level the dispatcher has resolved, which is not set here
-					pkt.Extra.AuthLevel = pbx.AuthLevel(pbx.AuthLevel_value[strings.ToUpper(msg.Extra.AuthLevel)])
-				}
-				if b, err := proto.Marshal(pkt); err == nil {
-					var back pbx.ClientMsg
-					if proto.Unmarshal(b, &back) == nil {
-						ss.s.dispatch(pbCliDeserialize(&back))
-						return
-					}
-				}
+		// the client's side (building the protobuf message) is not the server's business: if it cannot
+		// be built the request goes as JSON; what the server does with the bytes (pbCliDeserialize,
+		// dispatch) runs unprotected, as in grpcNodeServer.MessageLoop
+		if b := wClientPb(raw); b != nil {
+			var back pbx.ClientMsg
+			if proto.Unmarshal(b, &back) == nil {
+				ss.s.dispatch(pbCliDeserialize(&back))
+				return
 			}
 		}
 	}
@@ -957,4 +950,41 @@ func wTouch(s *Session, now time.Time) {
 	}
 	s.lastTouched = now
 	st.lock.Unlock()
+}
+
+// wClientPb renders a JSON request as the protobuf bytes a gRPC client would send (nil if it cannot).
+func wClientPb(raw []byte) (out []byte) {
+	defer func() {
+		if recover() != nil {
+			out = nil
+		}
+	}()
+	var msg ClientComMessage
+	if json.Unmarshal(raw, &msg) != nil {
+		return nil
+	}
+	// (a protobuf ClientMsg holds one request: a JSON text with several is not expressible)
+	kinds := 0
+	for _, set := range []bool{msg.Hi != nil, msg.Acc != nil, msg.Login != nil, msg.Sub != nil, msg.Leave != nil, msg.Pub != nil, msg.Get != nil, msg.Set != nil, msg.Del != nil, msg.Note != nil} {
+		if set {
+			kinds++
+		}
+	}
+	if kinds != 1 {
+		return nil
+	}
+	pkt := pbCliSerialize(&msg)
+	if pkt == nil {
+		return nil
+	}
+	if pkt.Extra != nil && msg.Extra != nil {
+		// a gRPC client fills extra.auth_level itself; pbCliSerialize (the server's own use: plugins,
+		// cluster) takes it from the level the dispatcher has resolved, which is not set here
+		pkt.Extra.AuthLevel = pbx.AuthLevel(pbx.AuthLevel_value[strings.ToUpper(msg.Extra.AuthLevel)])
+	}
+	b, err := proto.Marshal(pkt)
+	if err != nil {
+		return nil
+	}
+	return b
 }
